@@ -438,8 +438,14 @@ def main(argv):
         print("VIOLATION property=%s replay=%s no-failing-input-found" % (prop, rp))
         return 1
 
+    # custom flows (C20): own machinery, same decision / evidence plumbing
+    custom = None
+    if P.get("custom") and exe_model is not None and not replay:
+        custom = P["custom"](seed, tier, {"exe_model": exe_model})
     # 4. cases
-    if replay:
+    if P.get("gen") is None:
+        text, stats, distinct, samples, ncases = "", {}, 0, [], 0
+    elif replay:
         payload = json.load(open(replay))
         text = payload.get("case", "")
         stats, distinct, samples, ncases = {}, 0, [], text.count("case ")
@@ -537,9 +543,17 @@ def main(argv):
                     detail["case"] = extract_case(text, cid)
                 rp = write_replay(prop, "unproved", detail)
                 violations.append((rp, "no-failing-input-found"))
-    else:
+    elif custom is None:
         rp = write_replay(prop, "unproved", {"property": prop, "kind": "unproved", "broken_obligations": aud["problems"]})
         violations.append((rp, "no-failing-input-found"))
+    if custom is not None:
+        for k, (payload, suffix) in enumerate(custom["violations"]):
+            payload["property"] = prop
+            rp = write_replay(prop, "%s_%d" % (payload.get("kind", "x"), k), payload)
+            violations.append((rp, suffix))
+        if aud["problems"] and not custom["violations"]:
+            rp = write_replay(prop, "unproved", {"property": prop, "kind": "unproved", "broken_obligations": aud["problems"]})
+            violations.append((rp, "no-failing-input-found"))
 
     wall = time.time() - t0
     ev = {
@@ -571,6 +585,9 @@ def main(argv):
         "wall_s": round(wall, 2),
         "violations": len(violations),
     }
+    if custom is not None:
+        for k, v in custom["coverage"].items():
+            ev["coverage"][k] = v
     if "leanchecker" in aud:
         ev["coverage"]["leanchecker"] = aud["leanchecker"]
     write_evidence(prop, ev)
